@@ -136,4 +136,6 @@ func runC01(cx *ctx) {
 			return fencCase("enc-list", rr, ps, pt, segment(rr, pt))
 		})
 	}
+	// round trips and identity lists the generator above does not reach (c01_extra.go)
+	c01Extra(cx)
 }
